@@ -23,6 +23,13 @@ CLAIMED["C03"] = ("jaxpr->SMT (z3) of T forward steps with interface recording f
                   "bounded SMT verification: for every listed PML placement (single face, pairs, corner overlap, all faces; other faces periodic/PEC/PMC) z3 shows that after each reverse step E and H outside the PML equal the forward state of that step for all real interior fields and all positive inverse permittivities",
                   "reals for floats; T <= 6, shapes <= 4x4x4, PML thickness 1-3; lossless recorder; default grading", "4/C03")
 
+CLAIMED["C05"] = ("jaxpr->SMT (z3) of run_fdtd under the three gradient strategies with symbolic materials; concolic execution of _reversible_slice_boundaries with unbounded symbolic T",
+                  "bounded SMT verification: final fields, every detector state and the step count of run_fdtd agree between no-config, checkpointed (each checkpoint count) and reversible (each reversible checkpoint count) runs for all positive inverse permittivities; the slice boundaries start at 0, end at T and are strictly increasing for every k <= 48 and every integer T >= k",
+                  "reals for floats; T <= 7 for the run comparison; round() modelled as exact round-half-even", "4/C05")
+CLAIMED["C06"] = ("jaxpr->SMT (z3) of custom_fdtd_forward chains vs one call and of reset / re-run on containers with symbolic leftovers",
+                  "bounded SMT verification: for every split point the chained partial runs equal the single run for all initial fields, PML auxiliaries and detector-state contents; run_fdtd on a container holding arbitrary leftovers (and a second run from returned arrays) equals the fresh run; reset zeroes every time-dependent leaf and keeps the materials",
+                  "reals for floats (x*0=0); T <= 7; materials concrete", "4/C06")
+
 NOT_APPLICABLE = {
     "C12": "numerical accuracy bound (1e-6 residual energy after >=1e3 steps on >=40^3 cells in floating point); no algebraic identity, far beyond any bounded real-arithmetic encoding",
     "C13": "1e-3 power-ratio bound after hundreds of steps (TFSF leakage is small but non-zero by design); not an identity, out of reach for bounded real arithmetic",
